@@ -87,8 +87,8 @@ theorem takeUntil_nonempty (met : Nat → Bool) (n : Nat) {l : List Tbl} (h : l 
     unfold takeUntil
     split <;> simp
 
-theorem majorPick_nonempty (met : Nat → Bool) (n : Nat) (ls : List (List Tbl)) (h : ∃ l ∈ ls, l ≠ []) :
-    majorPickWith sortByAge met n ls ≠ [] := by
+theorem majorPick_nonempty (order : List Tbl → List Tbl) (hp : ∀ l, (order l).Perm l) (met : Nat → Bool) (n : Nat)
+    (ls : List (List Tbl)) (h : ∃ l ∈ ls, l ≠ []) : majorPickWith order met n ls ≠ [] := by
   induction ls generalizing n with
   | nil => obtain ⟨l, hl, _⟩ := h; cases hl
   | cons l ls ih =>
@@ -101,13 +101,13 @@ theorem majorPick_nonempty (met : Nat → Bool) (n : Nat) (ls : List (List Tbl))
         cases hl' with
         | head => exact absurd rfl hne
         | tail _ h' => exact ⟨l', h', hne⟩
-      simp only [sortByAge, List.foldr_nil, takeUntil, Bool.false_eq_true, if_false, List.nil_append, List.length_nil,
-        Nat.add_zero]
+      have hnil : order [] = [] := List.Perm.eq_nil (hp [])
+      simp only [hnil, takeUntil, Bool.false_eq_true, if_false, List.nil_append, List.length_nil, Nat.add_zero]
       exact ih n hrest
-    · have hs : sortByAge l ≠ [] := by
+    · have hs : order l ≠ [] := by
         intro h0
         obtain ⟨x, hx⟩ := List.exists_mem_of_ne_nil l hl
-        have := mem_sortByAge.mpr hx
+        have := (hp l).mem_iff.mpr hx
         rw [h0] at this; cases this
       have hne := takeUntil_nonempty met n hs
       split
@@ -120,9 +120,10 @@ theorem rmP_of_mem {ts : List Tbl} {t : Tbl} (h : t ∈ ts) : rmP (ts.map (·.id
   rw [List.contains_iff_mem]
   exact List.mem_map.mpr ⟨t, h, rfl⟩
 
-theorem compact_removes_some {L : Levels} {c : Compactor} {o : Oracle} {cs : ChangeSet} {c' : Compactor}
-    (hs : OracleSane c L o) (h : compact c L o = (some cs, c')) : ∃ t ∈ L.flatten, rmP cs.rm t = true := by
-  unfold compact compactWith at h
+theorem compactWith_removes_some {L : Levels} {c : Compactor} {o : Oracle} {cs : ChangeSet} {c' : Compactor}
+    (order : List Tbl → List Tbl) (hp : ∀ l, (order l).Perm l)
+    (hs : OracleSane c L o) (h : compactWith order c L o = (some cs, c')) : ∃ t ∈ L.flatten, rmP cs.rm t = true := by
+  unfold compactWith at h
   split at h
   · simp at h
   · rename_i hfew
@@ -136,9 +137,9 @@ theorem compact_removes_some {L : Levels} {c : Compactor} {o : Oracle} {cs : Cha
       obtain ⟨t, ht⟩ := List.exists_mem_of_ne_nil _ hne
       obtain ⟨l, hl, _⟩ := List.mem_flatten.mp ht
       have hlne : l ≠ [] := by intro h0; subst h0; rename_i htl; cases htl
-      have hp := majorPick_nonempty o.goalMet 0 L.dropLast.reverse ⟨l, List.mem_reverse.mpr hl, hlne⟩
-      obtain ⟨x, hx⟩ := List.exists_mem_of_ne_nil _ hp
-      obtain ⟨l', hl', hxl'⟩ := majorPickWith_sub sortByAge sortByAge_perm _ _ _ x hx
+      have hpk := majorPick_nonempty order hp o.goalMet 0 L.dropLast.reverse ⟨l, List.mem_reverse.mpr hl, hlne⟩
+      obtain ⟨x, hx⟩ := List.exists_mem_of_ne_nil _ hpk
+      obtain ⟨l', hl', hxl'⟩ := majorPickWith_sub order hp _ _ _ x hx
       exact ⟨x, List.mem_flatten.mpr ⟨l', List.dropLast_subset L (List.mem_reverse.mp hl'), hxl'⟩,
         rmP_of_mem (List.mem_append_left _ hx)⟩
     · unfold minorCompaction at h
@@ -167,6 +168,17 @@ theorem compact_removes_some {L : Levels} {c : Compactor} {o : Oracle} {cs : Cha
               exact ⟨x, getD_mem_flatten hx, rmP_of_mem (List.mem_append_left _ hx)⟩
             · exact ih (cur + 1) h
           · simp at h
+
+theorem compact_removes_some {L : Levels} {c : Compactor} {o : Oracle} {cs : ChangeSet} {c' : Compactor}
+    (hs : OracleSane c L o) (h : compact c L o = (some cs, c')) : ∃ t ∈ L.flatten, rmP cs.rm t = true :=
+  compactWith_removes_some sortByAge sortByAge_perm hs h
+
+/-- the guard passes for the pick under any arrangement of equal ages -/
+theorem compactWith_passes {L : Levels} {c : Compactor} {o : Oracle} (order : List Tbl → List Tbl) (ho : OrderOK order)
+    (hv : WeakValid L) (hid : (L.flatten.map (·.id)).Nodup) (hage : L0KeyAgeOrdered L) (h2 : 2 ≤ L.length)
+    (hs : OracleSane c L o) {cs : ChangeSet} {c' : Compactor} (h : compactWith order c L o = (some cs, c')) :
+    safeCS L cs.rm cs.lvl cs.add = true :=
+  safeCS_of_structOK (compactWith_struct order ho hv hid hage h2 h) (compactWith_removes_some order ho.perm hs h)
 
 /-- **every change set the modelled picker produces passes the executable guard of the DKV system's compaction
 commit** -/
@@ -222,20 +234,18 @@ theorem structOK_after_flush {L : Levels} {rm : List Nat} {lvl : Nat} {add : Lis
 
 /-! ## what the sequence numbers of the DKV system give -/
 
-theorem keyAge_of_chron {s : Lsm.State} (h : ChronSep s) : L0KeyAgeOrdered s.levels := by
-  unfold ChronSep at h
-  unfold L0KeyAgeOrdered
-  have h1 := List.pairwise_map.mp (List.pairwise_append.mp h).1
-  refine List.Pairwise.imp ?_ h1
-  intro a b hab hnd
+theorem age_lt_of_sep {a b : Tbl} (hsep : ∀ e ∈ a.run, ∀ e' ∈ b.run, e.seq < e'.seq)
+    (hnd : ¬ DisjointKeys a.run b.run) : age a < age b := by
   cases ha : a.run with
   | nil => exact absurd (fun ea hea => by rw [ha] at hea; cases hea) hnd
   | cons x xs =>
     cases hb : b.run with
     | nil => exact absurd (fun ea _ eb heb => by rw [hb] at heb; cases heb) hnd
     | cons y ys =>
-      have := hab x (by rw [ha]; exact List.mem_cons_self) y (by rw [hb]; exact List.mem_cons_self)
+      have := hsep x (by rw [ha]; exact List.mem_cons_self) y (by rw [hb]; exact List.mem_cons_self)
       simpa [age, ha, hb] using this
+
+theorem keyAge_of_chron {s : Lsm.State} (h : ChronSep s) : L0KeyAgeOrdered s.levels := h.1
 
 /-! ## the invariant of the DKV system with the compaction task -/
 
@@ -245,6 +255,7 @@ structure DInv (d : DB) (m : Spec) : Prop where
   ids : IdsFresh d.s.levels d.s.nextId
   len : 2 ≤ d.s.levels.length
   chron : ChronSep d.s
+  ord : DeepOrdered d.s
   pend : ∀ cs, d.pending = some cs →
     StructOK d.s.levels cs.rm cs.lvl cs.add ∧ (∃ t ∈ d.s.levels.flatten, rmP cs.rm t = true) ∧
     ∀ i ∈ cs.rm, i < d.s.nextId
@@ -268,18 +279,33 @@ theorem chron_write {s : Lsm.State} {active : Run} {sealedRev : List Run} (e : E
   have hmems : s.mems = sealedRev.reverse ++ [active] := by
     have := congrArg List.reverse hm
     simpa using this
-  unfold ChronSep at *
-  simp only [List.reverse_cons]
-  rw [hmems, ← List.append_assoc] at hc hb
-  rw [← List.append_assoc]
-  have ⟨hX, _, hcross⟩ := List.pairwise_append.mp hc
-  refine List.pairwise_append.mpr ⟨hX, List.pairwise_singleton _ _, ?_⟩
-  intro x hx a' ha' e0 he0 e' he'
-  simp only [List.mem_singleton] at ha'
-  subst ha'
-  cases Run.insert_mem he' with
-  | inl h => subst h; exact hb x (List.mem_append_left _ hx) e0 he0
-  | inr h => exact hcross x hx active List.mem_cons_self e0 he0 e' h
+  obtain ⟨h1, h2, h3⟩ := hc
+  rw [hmems] at h2 h3 hb
+  have ⟨hX, _, hcross⟩ := List.pairwise_append.mp h2
+  refine ⟨h1, ?_, ?_⟩
+  · show ((active.insert e :: sealedRev).reverse).Pairwise _
+    rw [List.reverse_cons]
+    refine List.pairwise_append.mpr ⟨hX, List.pairwise_singleton _ _, ?_⟩
+    intro x hx a' ha' e0 he0 e' he'
+    simp only [List.mem_singleton] at ha'
+    subst ha'
+    cases Run.insert_mem he' with
+    | inl h => subst h; exact hb x (List.mem_append_right _ (List.mem_append_left _ hx)) e0 he0
+    | inr h => exact hcross x hx active List.mem_cons_self e0 he0 e' h
+  · intro t ht r hr e0 he0 e' he'
+    have hr' : r ∈ sealedRev.reverse ++ [active.insert e] := by
+      have : r ∈ (active.insert e :: sealedRev).reverse := hr
+      rwa [List.reverse_cons] at this
+    cases List.mem_append.mp hr' with
+    | inl hs => exact h3 t ht r (List.mem_append_left _ hs) e0 he0 e' he'
+    | inr ha =>
+      simp only [List.mem_singleton] at ha
+      subst ha
+      cases Run.insert_mem he' with
+      | inl h =>
+        subst h
+        exact hb t.run (List.mem_append_left _ (List.mem_map.mpr ⟨t, ht, rfl⟩)) e0 he0
+      | inr h => exact h3 t ht active (List.mem_append_right _ List.mem_cons_self) e0 he0 e' h
 
 theorem seq_bound_chron {s : Lsm.State} {m : Spec} (hi : Inv s m) :
     ∀ r ∈ (s.levels.headD []).map (·.run) ++ s.mems, ∀ x ∈ r, x.seq ≤ s.seq := by
@@ -321,13 +347,18 @@ theorem fg_step_keeps {s s' : Lsm.State} {m : Spec} {a : Lsm.Act} (hi : Inv s m)
     simp only [step, Option.some.injEq] at h
     subst h
     refine ⟨keeps_same_levels rfl rfl, ?_⟩
-    unfold ChronSep at *
-    simp only
-    rw [← List.append_assoc]
-    refine List.pairwise_append.mpr ⟨hc, List.pairwise_singleton _ _, ?_⟩
-    intro x _ b hb e _ e' he'
-    simp only [List.mem_singleton] at hb
-    subst hb; cases he'
+    obtain ⟨h1, h2, h3⟩ := hc
+    refine ⟨h1, ?_, ?_⟩
+    · show (s.mems ++ [[]]).Pairwise _
+      refine List.pairwise_append.mpr ⟨h2, List.pairwise_singleton _ _, ?_⟩
+      intro x _ b hb e _ e' he'
+      simp only [List.mem_singleton] at hb
+      subst hb; cases he'
+    · intro t ht r hr e0 he0 e' he'
+      have hr' : r ∈ s.mems ++ [[]] := hr
+      cases List.mem_append.mp hr' with
+      | inl hs => exact h3 t ht r hs e0 he0 e' he'
+      | inr hn => simp only [List.mem_singleton] at hn; subst hn; cases he'
   | flushBegin n =>
     simp only [step] at h
     split at h
@@ -383,14 +414,34 @@ theorem fg_step_keeps {s s' : Lsm.State} {m : Spec} {a : Lsm.Act} (hi : Inv s m)
           cases ht with
           | inl h0 => exact Or.inl (Or.inl h0)
           | inr h0 => exact Or.inr h0
-        · unfold ChronSep at *
-          show (((addAt s.levels 0 (mkTables s.nextId snap)).headD []).map (·.run) ++ s.mems.drop snap.length).Pairwise _
-          rw [hLD] at hc ⊢
-          show ((l0 ++ mkTables s.nextId snap).map (·.run) ++ s.mems.drop snap.length).Pairwise _
+        · obtain ⟨h1, h2, h3⟩ := hc
           have hmem : s.mems = snap ++ s.mems.drop snap.length := by
             conv => lhs; rw [← List.take_append_drop snap.length s.mems, hcond.1]
-          rw [List.map_append, mkTables_map_run, List.append_assoc, ← hmem]
-          exact hc
+          rw [hmem] at h2
+          have ⟨hsnap, hdrop, hsd⟩ := List.pairwise_append.mp h2
+          have hnewrun : ∀ t ∈ mkTables s.nextId snap, t.run ∈ snap := fun t ht => mkTables_run_mem ht
+          have hsnapmem : ∀ r ∈ snap, r ∈ s.mems := fun r hr => by rw [hmem]; exact List.mem_append_left _ hr
+          have hdropmem : ∀ r ∈ s.mems.drop snap.length, r ∈ s.mems := fun r hr => List.mem_of_mem_drop hr
+          rw [hLD] at h1 h3
+          refine ⟨?_, hdrop, ?_⟩
+          · show L0KeyAgeOrdered (addAt s.levels 0 (mkTables s.nextId snap))
+            rw [hLD]
+            show (l0 ++ mkTables s.nextId snap).Pairwise (fun a b => ¬ DisjointKeys a.run b.run → age a < age b)
+            refine List.pairwise_append.mpr ⟨h1, ?_, ?_⟩
+            · have : ((mkTables s.nextId snap).map (·.run)).Pairwise
+                  (fun older newer => ∀ e ∈ older, ∀ e' ∈ newer, e.seq < e'.seq) := by
+                rw [mkTables_map_run]; exact hsnap
+              exact (List.pairwise_map.mp this).imp (fun hab => age_lt_of_sep hab)
+            · intro a ha b hb
+              exact age_lt_of_sep (fun e he e' he' => h3 a ha b.run (hsnapmem _ (hnewrun b hb)) e he e' he')
+          · intro t ht r hr e0 he0 e' he'
+            have ht' : t ∈ l0 ++ mkTables s.nextId snap := by
+              have : t ∈ (addAt s.levels 0 (mkTables s.nextId snap)).headD [] := ht
+              rw [hLD] at this; exact this
+            have hr' : r ∈ s.mems.drop snap.length := hr
+            cases List.mem_append.mp ht' with
+            | inl h0 => exact h3 t h0 r (hdropmem r hr') e0 he0 e' he'
+            | inr h0 => exact hsd t.run (hnewrun t h0) r hr' e0 he0 e' he'
       · cases h
   | compact rm lvl add => simp [isCompact] at hna
   | getA k =>
@@ -433,7 +484,7 @@ theorem dinv_step {d d' : DB} {m : Spec} {a : DAct} (hi : DInv d m) (hok : d.act
         have hinv := step_inv (Or.inr trivial) a
           (fun rm lvl add ha => by subst ha; simp [isCompact] at hna') hi.inv hi.rinv hst
         have ⟨hk, hc'⟩ := fg_step_keeps hi.inv hi.chron hna' hst
-        refine ⟨hinv.1, hinv.2, hk.ids hi.ids, by rw [hk.len]; exact hi.len, hc', ?_⟩
+        refine ⟨hinv.1, hinv.2, hk.ids hi.ids, by rw [hk.len]; exact hi.len, hc', step_ordered a hi.inv hi.ord hst, ?_⟩
         intro cs hcs
         have ⟨h1, ⟨t, ht, hpt⟩, h3⟩ := hi.pend cs hcs
         have := hk.pend cs.rm cs.lvl cs.add h1 h3
@@ -444,7 +495,7 @@ theorem dinv_step {d d' : DB} {m : Spec} {a : DAct} (hi : DInv d m) (hok : d.act
     · cases h
     · simp only [Option.some.injEq] at h
       subst h
-      refine ⟨hi.inv, hi.rinv, hi.ids, hi.len, hi.chron, ?_⟩
+      refine ⟨hi.inv, hi.rinv, hi.ids, hi.len, hi.chron, hi.ord, ?_⟩
       intro cs hcs
       simp only at hcs
       have hc : compact d.c d.s.levels o = (some cs, (compact d.c d.s.levels o).2) := by rw [← hcs]
@@ -473,17 +524,23 @@ theorem dinv_step {d d' : DB} {m : Spec} {a : DAct} (hi : DInv d m) (hok : d.act
       have hshape' : addAt (removeIds cs.rm d.s.levels) cs.lvl (mkTables d.s.nextId cs.add) =
           l0.filter (fun t => !rmP cs.rm t) :: (D1.map (List.filter (fun t => !rmP cs.rm t)) ++ mkTables d.s.nextId cs.add :: D2) :=
         hshape
-      refine ⟨hinv.1, hinv.2, idsFresh_applyCS hw hs hi.ids, ?_, ?_, fun cs' hcs' => by cases hcs'⟩
+      refine ⟨hinv.1, hinv.2, idsFresh_applyCS hw hs hi.ids, ?_, ?_, step_ordered _ hi.inv hi.ord hstep,
+        fun cs' hcs' => by cases hcs'⟩
       · show 2 ≤ (addAt (removeIds cs.rm d.s.levels) cs.lvl (mkTables d.s.nextId cs.add)).length
         rw [hshape']
         simp only [List.length_cons, List.length_append, List.length_map]
         omega
-      · have hc := hi.chron
-        unfold ChronSep at hc ⊢
-        show (((addAt (removeIds cs.rm d.s.levels) cs.lvl (mkTables d.s.nextId cs.add)).headD []).map (·.run) ++ d.s.mems).Pairwise _
-        rw [hshape']
-        rw [hL] at hc
-        exact hc.sublist (List.Sublist.append (List.filter_sublist.map _) (List.Sublist.refl _))
+      · obtain ⟨h1, h2, h3⟩ := hi.chron
+        rw [hL] at h1 h3
+        refine ⟨?_, h2, ?_⟩
+        · show L0KeyAgeOrdered (addAt (removeIds cs.rm d.s.levels) cs.lvl (mkTables d.s.nextId cs.add))
+          rw [hshape']
+          exact List.Pairwise.filter _ h1
+        · intro t ht r hr e0 he0 e' he'
+          have ht' : t ∈ l0.filter (fun t => !rmP cs.rm t) := by
+            have : t ∈ (addAt (removeIds cs.rm d.s.levels) cs.lvl (mkTables d.s.nextId cs.add)).headD [] := ht
+            rw [hshape'] at this; exact this
+          exact h3 t (List.mem_filter.mp ht').1 r hr e0 he0 e' he'
   | compactFail o =>
     simp only [DB.step] at h
     split at h
@@ -491,7 +548,7 @@ theorem dinv_step {d d' : DB} {m : Spec} {a : DAct} (hi : DInv d m) (hok : d.act
     · split at h
       · simp only [Option.some.injEq] at h
         subst h
-        exact ⟨hi.inv, hi.rinv, hi.ids, hi.len, hi.chron, fun cs hcs => hi.pend cs hcs⟩
+        exact ⟨hi.inv, hi.rinv, hi.ids, hi.len, hi.chron, hi.ord, fun cs hcs => hi.pend cs hcs⟩
       · cases h
 
 theorem db_run_inv : ∀ (as : List DAct) (d : DB) (m : Spec) (d' : DB) (m' : Spec),
@@ -510,9 +567,10 @@ theorem db_run_inv : ∀ (as : List DAct) (d : DB) (m : Spec) (d' : DB) (m' : Sp
       exact ih d1 _ d' m' (dinv_step hi hok.1 hst) hok.2 h
 
 theorem dinv_init : DInv {} [] := by
-  refine ⟨inv_init, readInv_init, ?_, by decide, ?_, fun cs h => by cases h⟩
+  refine ⟨inv_init, readInv_init, ?_, by decide, ?_, deepOrdered_init, fun cs h => by cases h⟩
   · unfold IdsFresh; decide
-  · unfold ChronSep; decide
+  · refine ⟨by unfold L0KeyAgeOrdered; decide, by decide, ?_⟩
+    intro t ht; cases ht
 
 /-! ## histories: erasing the compaction commits changes no answer -/
 
@@ -772,5 +830,11 @@ theorem db_run_lsm : ∀ (as : List DAct) (d : DB) (m : Spec) (d' : DB) (m' : Sp
             subst hst
             exact ⟨acts, hr, by simpa [foreground] using hd⟩
           · cases hst
+
+/-- in a state with the invariant the level list is `LayoutValid`: sorted runs, deeper levels in key order without
+overlap, newer above -/
+theorem layoutValid_of_dinv {d : DB} {m : Spec} (hi : DInv d m) : LayoutValid d.s.levels := by
+  have hw := weakValid_of_inv hi.inv
+  exact ⟨hw.sorted, hi.ord, hw.newer⟩
 
 end Rxn.Compaction
